@@ -5,9 +5,9 @@ Require Import ExtrOcamlBasic.
 From MMD.lib Require Import Bytes.
 From MMD.lib Require Import Lemon Utf8 XmlDfa.
 From MMD.lib Require Import MiniC.
-From MMD.gen Require Import ParserTables.
+From MMD.gen Require Import ParserTables Bounds.
 From MMD.gen Require Import Escapers CharTable.
-From MMD.model Require Import DStringModel DStringSpec PoolModel TreeCheck LabelModel CriticModel TranscludeModel MetaModel AnchorModel HeaderIdModel OpmlModel MetaSwitchModel.
+From MMD.model Require Import DStringModel DStringSpec PoolModel TreeCheck LabelModel CriticModel TranscludeModel MetaModel AnchorModel HeaderIdModel OpmlModel MetaSwitchModel TableAlignModel.
 From MMD.proofs Require Import EscaperProofs.
 Extraction Language OCaml.
 Extraction "mmdmodel.ml"
@@ -26,4 +26,5 @@ Extraction "mmdmodel.ml"
   AnchorModel.export AnchorModel.wf_doc AnchorModel.forward_only AnchorModel.nocite_free
   HeaderIdModel.header_id HeaderIdModel.header_span HeaderIdModel.manual_id HeaderIdModel.reference_label
   OpmlModel.xml_as_text OpmlModel.export_tags OpmlModel.import_levels OpmlModel.properly_nested
-  MetaSwitchModel.process MetaSwitchModel.is_control MiniC.has_flag.
+  MetaSwitchModel.process MetaSwitchModel.is_control MiniC.has_flag
+  TableAlignModel.record TableAlignModel.colspec Bounds.table_alignment_size Bounds.record_limit.
